@@ -83,7 +83,15 @@ func H_C10_source_untouched() {
 	case 6:
 		from = map[string]interface{}{"l": []interface{}{handle}, "l.0.added": u}
 	}
-	dst, err := ucfg.NewFrom(map[string]interface{}{"k": map[string]interface{}{"old": 1}, "l": []interface{}{9}, "a": map[string]interface{}{"z": 3}}, opts...)
+	dstIn := map[string]interface{}{"k": map[string]interface{}{"old": 1}, "l": []interface{}{9}, "a": map[string]interface{}{"z": 3}}
+	switch verif.Choice("destination", 3) {
+	case 1:
+		// primitives (and a reference to one) where the source holds objects and lists
+		dstIn = map[string]interface{}{"k": 1, "l": "prim", "a": 5, "e": "${a}", "el": true, "w": 2}
+	case 2:
+		dstIn = map[string]interface{}{}
+	}
+	dst, err := ucfg.NewFrom(dstIn, opts...)
 	verif.Assume(err == nil)
 	pol := verif.Choice("policy", nPolicies)
 
